@@ -186,6 +186,25 @@ inline void run_actions(JW& j, const Step& st, Document& doc, Dumper& d, const s
                     j.str("<throws " + ex + ">");
             }
             j.e();
+            if (st.get("dot_types", "0") == "1") {
+                // C07: type of every process-member access (P.x) in the parsed query
+                j.k("dot_types").a();
+                std::function<void(const expression_t&)> walk = [&](const expression_t& e) {
+                    if (e.empty())
+                        return;
+                    if (e.get_kind() == DOT) {
+                        j.o();
+                        j.k("node").str(d.expr_str(e));
+                        j.k("type").str(d.type_str(e.get_type()));
+                        j.e();
+                    }
+                    for (size_t i = 0; i < e.get_size(); ++i)
+                        walk(e.get(i));
+                };
+                for (auto& e : r.exprs)
+                    walk(e);
+                j.e();
+            }
             if (st.get("rootkind", "0") == "1") {
                 j.k("root_type_kinds").a();
                 for (auto& e : r.exprs)
